@@ -40,9 +40,12 @@ MANIFEST = {
     'text': 'Lean model of cleanup_pathname_fsobj (in place, index reads), bsdtar strip_absolute_path, check_symlinks_fsobj, create_dir, '
             'create_filesystem_object, restore_entry, header/data/finish_entry and the close-time fix-up loop as programs over the system '
             'calls of an abstract POSIX tree.  Theorems: the cleanup loop equals its component-level meaning for all strings '
-            '(sound / rejects / accepts / in place / no out-of-bounds read), strip_absolute_sound, check_symlinks_sound, and extract_confined '
-            'for every entry sequence, every initial tree and every option set of the quantifier (see Props/C04.lean for what is proved in '
-            'full and what as _partial).  Tie: the static C functions are called directly on exact-size heap strings under ASan; generated '
+            '(sound / rejects / accepts / in place / no out-of-bounds read), strip_absolute_sound, check_symlinks_sound (after an OK check '
+            'no component of the path is a symlink, kernel resolution of every prefix is the plain descent below the working directory), '
+            'extract_confined: for EVERY finite entry sequence (all names, link targets, five kinds incl. hard links with a body, any order), EVERY initial tree '
+            'and every option set with the SECURE flags (UNLINK/NO_OVERWRITE/SAFE_WRITES/PERM/TIME free, deferred fix-ups at close included) '
+            'the tree outside the target, every inode without a name inside it and the link structure across the boundary are identical '
+            'afterwards, cwd and umask unchanged (full strength, no exclusion).  refused_not_fatal, umask_cwd_restored.  Tie: the static C functions are called directly on exact-size heap strings under ASan; generated '
             'entry sequences run through the real archive_write_disk API and through bsdtar -x inside a canary tree; per-entry status, the '
             'resulting target tree and the canary digest are compared with the model.',
     'note': 'Two escapes found on the snapshot tree and repaired (fix: commits): fix-ups at close walked through a symlink planted in a leading '
@@ -104,7 +107,7 @@ class PathClean(Engine):
             if ops:
                 yield Case('enum', ops)
         # check_symlinks_fsobj on a planted tree
-        for i in range(150 if tier == 'quick' else 4000):
+        for i in range(150 if tier == 'quick' else 3000):
             ops = []
             for _ in range(rng.choice([1, 2, 3, 4])):
                 ops.append(G.rand_pre(rng))
@@ -177,11 +180,11 @@ class Xtr(Engine):
     timeout = 3000
 
     def gen(self, rng, tier):
-        n = 450 if tier == 'quick' else 20000
+        n = 450 if tier == 'quick' else 6000
         for i in range(n):
             yield Case(f'seq{i}', G.sequence(rng, tier))
         if tier != 'quick':
-            for j, ops in enumerate(G.exhaustive3([['time'], ['time', 'perm'], ['unlink', 'time', 'perm'], ['safewrites', 'nooverwrite', 'time']])):
+            for j, ops in enumerate(G.exhaustive3([['time', 'perm'], ['unlink', 'time', 'perm'], ['safewrites', 'nooverwrite', 'time']])):
                 yield Case(f'ex{j}', ops)
 
     def oracle(self, case, impl):
@@ -237,7 +240,7 @@ class XtrTar(Xtr):
         return Engine.build(self)
 
     def gen(self, rng, tier):
-        n = 120 if tier == 'quick' else 4000
+        n = 120 if tier == 'quick' else 1500
         for i in range(n):
             yield Case(f'tar{i}', ['mode tar'] + G.sequence(rng, tier))
 
